@@ -727,7 +727,9 @@ func (w *txWalk) callF(call string, failAt, failGet *int) J {
 	// trace bookkeeping: a round counts when nothing but the passing of time separates it from the previous one,
 	// it ran without an injected fault, and no grace period was still running when it was made
 	waited := failAt == nil && failGet == nil && !w.callWaited(in)
-	if undisturbed && waited {
+	if isErr {
+		w.streak = 0 // the caller saw an error: the count of silent rounds starts again
+	} else if undisturbed && waited {
 		w.streak++
 	} else if waited {
 		w.streak = 1
@@ -993,6 +995,13 @@ func runTrafficXFixed(c *Ctx) {
 		w.ctx.Traffic = pct(20)
 		w.until("doTrafficRouting", 4, true)
 		w.until("finalisingTrafficRouting", 4, true)
+	}
+	// 5b. … and a match step there never converges: every round doubles the generated rules
+	{
+		w := txFixedWalk(c, txProv{Gateway: true}, func(x *txCtx, _ *txNet) { x.DisableGen, x.Grace = true, 0 })
+		ex := "Exact"
+		w.ctx.Matches = []cMatch{{H: []cAtom{{T: &ex, N: "user", V: "tester"}}, Q: []cAtom{}}}
+		w.until("doTrafficRouting", 4, true)
 	}
 	// 6. known finding noRevKey: the workload cannot be read during the clean-up
 	{
